@@ -27,6 +27,7 @@ def selections(wf):
     names = wf.names()
     sels = [None] + [[n] for n in names[:4]]
     sels.append(["[BC]*"])
+    sels.append(["Zz*"])  # a pattern that matches nothing selects nothing
     return sels
 
 
